@@ -81,6 +81,8 @@ var checks = map[string][]HarnessSpec{
 		{Name: "verifC13Compressed", Pkg: "./dns", Labels: []string{"compressed"}},
 		{Name: "verifC13RefDecode", Pkg: "./dns", Labels: []string{"refdecoded"}},
 		{Name: "verifC13Exact", Pkg: "./dns", Labels: []string{"exact"}},
+		{Name: "verifC13RefEncode", Pkg: "./dns", Labels: []string{"refencoded"}},
+		{Name: "verifC13MaxName", Pkg: "./dns", Labels: []string{"maxname"}, Quick: TierOpts{LoopLimit: 600}, Thorough: TierOpts{LoopLimit: 600}},
 		{Name: "verifC13Chain", Pkg: "./dns", Labels: []string{"chain"}},
 		{Name: "verifC13Padding", Pkg: "./dns", Labels: []string{"padded"}},
 		{Name: "verifC13ResponseCode", Pkg: "./dns", Labels: []string{"rcode"}},
